@@ -38,7 +38,7 @@ Proof.
   destruct (Req_EM_T (Rmax ek0 ek1 - Rmin ek0 ek1) 0) as [e|_]; [contradiction|].
   destruct (Req_EM_T (a * Rmax ek0 ek1 + b - (a * Rmin ek0 ek1 + b)) 0) as [e|_].
   - exfalso. apply Hs. nra.
-  - field. split; [|exact Hs]. intro E. apply Hs. nra.
+  - field. split; [exact Hs|]. intro E. apply Hs. nra.
 Qed.
 
 Theorem scaled_x_translate b ek0 ek1 x :
@@ -94,4 +94,72 @@ Proof.
     - apply Rmult_le_pos; [lra|]. left. apply Rinv_0_lt_compat. lra.
     - apply Rmult_lt_reg_r with p; [lra|]. unfold Rdiv. rewrite Rmult_assoc, Rinv_l by lra. lra. }
   rewrite E. cbn. lra.
+Qed.
+
+(* position relative to the edge knots: inside the knot range <-> scaled position in [0,1] *)
+Lemma scaled_x_inside ek0 ek1 x : ek0 <> ek1 -> Rmin ek0 ek1 <= x <= Rmax ek0 ek1 -> 0 <= scaled_x Rfops ek0 ek1 x <= 1.
+Proof.
+  intros Hne [H1 H2]. rewrite scaled_x_R.
+  assert (Hs : 0 < Rmax ek0 ek1 - Rmin ek0 ek1).
+  { unfold Rmax, Rmin. destruct (Rle_dec ek0 ek1); lra. }
+  destruct (Req_EM_T (Rmax ek0 ek1 - Rmin ek0 ek1) 0); [lra|]. split.
+  - apply Rmult_le_pos; [lra|]. left. apply Rinv_0_lt_compat. assumption.
+  - apply Rmult_le_reg_r with (Rmax ek0 ek1 - Rmin ek0 ek1); [assumption|].
+    unfold Rdiv. rewrite Rmult_assoc, Rinv_l by lra. lra.
+Qed.
+(* shifting x by c knot ranges shifts the scaled position by c *)
+Lemma scaled_x_shift ek0 ek1 x c : ek0 <> ek1 ->
+  scaled_x Rfops ek0 ek1 (x + c * (Rmax ek0 ek1 - Rmin ek0 ek1)) = scaled_x Rfops ek0 ek1 x + c.
+Proof.
+  intros Hne. rewrite !scaled_x_R.
+  assert (Hs : Rmax ek0 ek1 - Rmin ek0 ek1 <> 0) by (intro E; apply Hne, Rmax_min_eq, E).
+  destruct (Req_EM_T (Rmax ek0 ek1 - Rmin ek0 ek1) 0); [contradiction|]. field. assumption.
+Qed.
+
+(* ---------- gen_edge_knots = (min, max) ---------- *)
+Lemma lmin_cons d a (l : list R) : lmin Rfops d (a :: l) = lmin Rfops (Rmin d a) l.
+Proof. unfold lmin. cbn [fold_left]. rewrite tmin_R. reflexivity. Qed.
+Lemma lmax_cons d a (l : list R) : lmax Rfops d (a :: l) = lmax Rfops (Rmax d a) l.
+Proof. unfold lmax. cbn [fold_left]. rewrite tmax_R. reflexivity. Qed.
+Lemma lmin_spec : forall (l : list R) d,
+  lmin Rfops d l <= d /\ Forall (fun v => lmin Rfops d l <= v) l /\ (lmin Rfops d l = d \/ In (lmin Rfops d l) l).
+Proof.
+  induction l as [|a l IH]; intros d.
+  - unfold lmin; cbn. split; [lra|]. split; [constructor|left; reflexivity].
+  - rewrite lmin_cons. destruct (IH (Rmin d a)) as [H1 [H2 H3]].
+    pose proof (Rmin_l d a). pose proof (Rmin_r d a).
+    split; [lra|]. split; [constructor; [lra|exact H2]|].
+    destruct H3 as [H3|H3]; [|right; right; exact H3].
+    rewrite H3. unfold Rmin. destruct (Rle_dec d a); [left; reflexivity|right; left; reflexivity].
+Qed.
+Lemma lmax_spec : forall (l : list R) d,
+  d <= lmax Rfops d l /\ Forall (fun v => v <= lmax Rfops d l) l /\ (lmax Rfops d l = d \/ In (lmax Rfops d l) l).
+Proof.
+  induction l as [|a l IH]; intros d.
+  - unfold lmax; cbn. split; [lra|]. split; [constructor|left; reflexivity].
+  - rewrite lmax_cons. destruct (IH (Rmax d a)) as [H1 [H2 H3]].
+    pose proof (Rmax_l d a). pose proof (Rmax_r d a).
+    split; [lra|]. split; [constructor; [lra|exact H2]|].
+    destruct H3 as [H3|H3]; [|right; right; exact H3].
+    rewrite H3. unfold Rmax. destruct (Rle_dec d a); [right; left; reflexivity|left; reflexivity].
+Qed.
+(* numerical data: the edge knots are the least and the greatest element of the column *)
+Theorem gen_edge_knots_min_max col lo hi : gen_edge_knots Rfops false col = Some (lo, hi) ->
+  In lo col /\ In hi col /\ Forall (fun v => lo <= v <= hi) col.
+Proof.
+  destruct col as [|a rest]; [discriminate|]. cbn. intros E. inversion E; subst; clear E.
+  destruct (lmin_spec rest a) as [A1 [A2 A3]]. destruct (lmax_spec rest a) as [B1 [B2 B3]].
+  split; [destruct A3 as [A3|A3]; [left; symmetry; exact A3|right; exact A3]|].
+  split; [destruct B3 as [B3|B3]; [left; symmetry; exact B3|right; exact B3]|].
+  constructor; [lra|]. rewrite Forall_forall in *. intros v Hv. split; [apply A2|apply B2]; assumption.
+Qed.
+Theorem gen_edge_knots_categorical col lo hi : gen_edge_knots Rfops true col = Some (lo, hi) ->
+  In (lo + / 2) col /\ In (hi - / 2) col /\ Forall (fun v => lo + / 2 <= v <= hi - / 2) col.
+Proof.
+  destruct col as [|a rest]; [discriminate|]. unfold gen_edge_knots. cbn [Rfops fr Rrops radd rsub]. intros E.
+  assert (Hh : half Rfops = / 2) by (unfold half; cbn; rewrite Rdivt_ok by lra; lra). rewrite Hh in E.
+  inversion E; subst; clear E.
+  replace (lmin Rfops a rest - / 2 + / 2) with (lmin Rfops a rest) by lra.
+  replace (lmax Rfops a rest + / 2 - / 2) with (lmax Rfops a rest) by lra.
+  apply (gen_edge_knots_min_max (a :: rest)). reflexivity.
 Qed.
